@@ -17,6 +17,7 @@ import RbV.Lemmas.KmerHash
 import RbV.Lemmas.Expand
 import RbV.Thm.GenSrcLcskpp
 import RbV.Thm.GenSrcSdpkpp
+import RbV.Thm.GenSrcKmerMatches
 /-!
 # C19 — k-mer / q-gram indexing and sparse chaining are exact
 
@@ -414,6 +415,54 @@ example : (hmGet [1, 2] (hashKmers [1, 2, 1, 2] 2)).getD [] = [0, 2] ∧ kmerMat
   rw [hash_kmers_model_exact]; decide
 
 end kmer_hash
+
+/-! ## `hash_kmers`, `find_kmer_matches*` — the source text (`RbV/Gen/SrcKmerMatches.lean`, builder gensparse)
+
+`HashMapFx<&[u8], Vec<u32>>` = `Rs.HMap` (only `entry(k).or_default().push(i)` and `get(k)` are used: the iteration order of
+the hash map is never observed); the final `sort_unstable()` is any function meeting `Rs.SortOk` on the derived order of
+`(u32, u32)`.  Sequences shorter than 2³² (positions are stored as `u32`). -/
+section kmer_source
+open RbV.Rs RbV.Model.KmerHash RbV.Thm.GenSrcKmerMatches
+
+/-- `hash_kmers` as written in the source builds the model's map: under every k-mer the ascending list of its positions -/
+theorem hash_kmers_source_eq_model (sortM : List (Nat × Nat) → List (Nat × Nat)) (seq : List Nat) (k : Nat) (hlen : seq.length < 2 ^ 32)
+    (key : List Nat) :
+    ∃ m, Gen.SrcKmerMatches.hashKmers sortM seq k = Res.ok m ∧ m = hashKmers seq k ∧
+      (Rs.HMap.get m key).getD [] = (List.range (seq.length + 1 - k)).filter (fun i => window k seq i = key) :=
+  ⟨_, GenSrcKmerMatches.hashKmers_eq_model sortM seq k hlen, rfl, by rw [GenSrcKmerMatches.get_eq]; exact hash_kmers_model_exact seq k key⟩
+
+/-- the two matchers over a given map, as written in the source = their mirror models (for every map) -/
+theorem find_kmer_matches_hashed_source_eq_model (sortM : List (Nat × Nat) → List (Nat × Nat)) (hsort : SortOk sortM) (m : HMap)
+    (seq : List Nat) (k : Nat) (hlen : seq.length < 2 ^ 32) :
+    Gen.SrcKmerMatches.seq1Hashed sortM m seq k = Res.ok (seq1Hashed m seq k) ∧
+    Gen.SrcKmerMatches.seq2Hashed sortM seq m k = Res.ok (seq2Hashed seq m k) :=
+  ⟨GenSrcKmerMatches.seq1Hashed_eq_model sortM hsort m seq k hlen, GenSrcKmerMatches.seq2Hashed_eq_model sortM hsort seq m k hlen⟩
+
+/-- **the translated `find_kmer_matches` (through the translated `hash_kmers` and the translated matcher of the branch taken)
+returns exactly the strictly sorted set of position pairs with equal k-mers** — no panic, for all sequences shorter than
+2³², every `k`, every `sort_unstable` meeting its contract; and so do the two `_hashed` entry points on the translated hash
+of the other sequence -/
+theorem find_kmer_matches_source_exact (sortM : List (Nat × Nat) → List (Nat × Nat)) (hsort : SortOk sortM) (x y : List Nat) (k : Nat)
+    (hx : x.length < 2 ^ 32) (hy : y.length < 2 ^ 32) :
+    (∃ l, Gen.SrcKmerMatches.findKmerMatches sortM x y k = Res.ok l ∧ l = kmerMatches x y k ∧ l.Pairwise lexLt ∧
+      ∀ i j, (i, j) ∈ l ↔ i + k ≤ x.length ∧ j + k ≤ y.length ∧ (x.drop i).take k = (y.drop j).take k) ∧
+    (∃ hx', Gen.SrcKmerMatches.hashKmers sortM x k = Res.ok hx' ∧
+      Gen.SrcKmerMatches.seq1Hashed sortM hx' y k = Res.ok (kmerMatches x y k)) ∧
+    (∃ hy', Gen.SrcKmerMatches.hashKmers sortM y k = Res.ok hy' ∧
+      Gen.SrcKmerMatches.seq2Hashed sortM x hy' k = Res.ok (kmerMatches x y k)) := by
+  obtain ⟨h1, h2, h3⟩ := find_kmer_matches_model_refines x y k
+  refine ⟨⟨_, GenSrcKmerMatches.findKmerMatches_eq_model sortM hsort x y k hx hy, h1, ?_, ?_⟩,
+    ⟨_, GenSrcKmerMatches.hashKmers_eq_model sortM x k hx, ?_⟩, ⟨_, GenSrcKmerMatches.hashKmers_eq_model sortM y k hy, ?_⟩⟩
+  · rw [h1]; exact kmerMatches_sorted x y k
+  · intro i j; rw [h1]; exact kmerMatches_exact x y k i j
+  · rw [GenSrcKmerMatches.seq1Hashed_eq_model sortM hsort _ y k hy, h2]
+  · rw [GenSrcKmerMatches.seq2Hashed_eq_model sortM hsort x _ k hx, h3]
+
+example : Gen.SrcKmerMatches.findKmerMatches stdSortM [1, 2, 1, 2] [2, 1, 2] 2 = Res.ok [(0, 1), (1, 0), (2, 1)] := by
+  obtain ⟨⟨l, h1, h2, _⟩, _⟩ := find_kmer_matches_source_exact stdSortM stdSortM_ok [1, 2, 1, 2] [2, 1, 2] 2 (by decide) (by decide)
+  rw [h1, h2]; decide
+
+end kmer_source
 
 /-! ## `expand_kmer_matches` (mirror model `RbV/Model/Expand.lean`) -/
 section expand_model
